@@ -55,7 +55,8 @@ def decl_block(g, lang):
         out.append('%%type <%s> %s\n' % (n['tag'], n['name']))
     for kind, ts in g['precs']:
         out.append('%%%s %s\n' % (kind, ' '.join(gram.tname(g, i) for i in ts)))
-    out.append('%%start %s\n' % g['nonterms'][g['start']]['name'])
+    if not (g.get('implicit_start') and g['nonterms'][g['start']]['name'] == 'start'):
+        out.append('%%start %s\n' % g['nonterms'][g['start']]['name'])
     return ''.join(out)
 
 
